@@ -219,9 +219,9 @@ func assertedTo(v ssa.Value, pkg, name string) []*ssa.BasicBlock {
 // forwardExempt: functions that drive evaluation from the top level, where no
 // block can enclose the forms (return-from raises before a marker exists).
 var forwardExempt = map[string]string{
-	"cmd/slip.run":                   "evaluates the files/expressions given on the command line in the top-level scope",
-	"pkg/repl.process":               "the REPL's top-level read-eval-print step",
-	"slip.(AppArg).SetFlag$1":        "evaluates a command-line flag value in the application's top-level scope",
+	"cmd/slip.run":                  "evaluates the files/expressions given on the command line in the top-level scope",
+	"pkg/repl.process":              "the REPL's top-level read-eval-print step",
+	"slip.(AppArg).SetFlag$1":       "evaluates a command-line flag value in the application's top-level scope",
 	"pkg/test.(testRunCaller).Call": "test forms run in the test instance's own scope, which has no enclosing block",
 }
 
